@@ -47,6 +47,12 @@ CLAIMED = {
            "<=> t within first/last knot, error kind, radius/correction bounds, knot reproduction to 1e-12; slice selection and z symmetry "
            "over all 92 real z bounds.",
            "DESIGN.md 4 (C18), 9", "Monotonicity and 8 ns continuity are two-lookup float queries: best effort, reported per run. Hook VerifDriftTables::from_static."),
+ "C19": _c("ONLY the row kernel of alpha-g-vertices / alpha-g-trg-scalers: the `scan` closure of main() that turns per-event results into "
+           "CSV rows, on every sequence of <= 3 (thorough 5) events: one row per event in order with its serial number, empty fields for "
+           "undecodable events, unwrapped time = sum of 32-bit wrapped differences between consecutive decodable events, vertex / counter "
+           "columns equal the library's values.",
+           "DESIGN.md 9.3 (C19)", "NOT decided (most of the statement): file ordering and refusals, event filtering, rayon determinism, CSV "
+           "serialisation, the final division by 62.5 MHz. The closure text is cut verbatim from main.rs at every run (one mechanical edit)."),
  "C20": _c("alpha-g-chronobox-timestamps: fn chronobox_time (soundness for every entry/marker combination; integer lemma tying the formula "
            "to the hardware model over 8 wraps; displacement/dropped/duplicated/missing marker) and the row loop of main() on every FIFO "
            "of <= 4 entries after the counter-0 marker (rows, order, channel/edge, which markers feed the time). Found and fixed D3.",
@@ -63,7 +69,6 @@ NA = {
  "C15": "clustering bookkeeping recomputes Hough bins with sin/cos, which Kani models as fresh nondeterministic values per call, so even the partition clause fails spuriously; sqrt distance does not terminate in the solver",
  "C16": "Kepler/Newton iteration with sin, cos, atan2, hypot: unsupported or nondeterministic in the solver",
  "C17": "float equivalence of the 60-line greedy deconvolution did not finish in 1400 s at 6 samples x 4 taps; wire clause needs Cholesky",
- "C19": "every clause is about main() of two binaries (file I/O, rayon, CSV); no callable unit to encode, Kani models neither threads nor the file system",
 }
 PENDING = {}
 
